@@ -444,10 +444,51 @@ def threads_part(chk, thorough, rng):
         sys.setswitchinterval(old)
 
 
+def default_objects_isolated(chk):
+    """What one shot hands out belongs to that shot: the default atmosphere and the default wind of a shot built without them,
+    and what the factories (Atmo.icao / Atmo.standard) return, are edited through their public attributes - later shots built
+    the same way (other objects, equal arguments) must compute what such shots computed before the edits."""
+    m = impl.pb()
+    U = m.Unit
+    core.reset_world()
+
+    def fresh_default_shot():
+        return m.Shot(m.Weapon(U.Inch(2), U.Inch(10)), m.Ammo(m.DragModel(0.3, m.TableG7, U.Grain(168), U.Inch(0.308), U.Inch(1.2)), U.FPS(2700)))
+
+    def results():
+        calc = m.Calculator(_config={"max_calc_step_size_feet": 2.0})
+        out = [tuple(scen.row_fp(r) for r in calc.fire(fresh_default_shot(), U.Foot(900), U.Foot(300)).trajectory)]
+        for alt in (None, U.Foot(1500), U.Meter(0)):
+            at = m.Atmo.icao() if alt is None else m.Atmo.icao(alt)
+            sh = fresh_default_shot()
+            sh.atmo = at
+            out.append(tuple(scen.row_fp(r) for r in calc.fire(sh, U.Foot(900), U.Foot(300)).trajectory))
+        out.append(float(calc.set_weapon_zero(fresh_default_shot(), U.Yard(100)).raw_value).hex())
+        return out
+
+    before = results()
+    s0 = fresh_default_shot()
+    s0.atmo.humidity = 90
+    for w_ in s0.winds:
+        w_.velocity, w_.direction_from = U.MPH(25), U.Degree(90)
+    for alt in (None, U.Foot(1500), U.Meter(0)):
+        a0 = m.Atmo.icao() if alt is None else m.Atmo.icao(alt)
+        a0.humidity = 75
+    s0.weapon.zero_elevation = U.Mil(3)
+    after = impl.outcome(results)
+    chk.count(1, ("default_objects",))
+    chk.stratum("default_objects_edited")
+    if after[0] != "ok" or after[1] != before:
+        which = "raised " + str(after[1]) if after[0] != "ok" else [i for i, (x, y) in enumerate(zip(before, after[1])) if x != y]
+        chk.violation("C10.DefaultObjectsShared", {"source": "default-objects"}, {"differs": which})
+    core.reset_world()
+
+
 def run(chk: core.Check, replay=None) -> None:
     core.use_repo()
     core.reset_world()
     thorough = chk.tier == "thorough"
+    default_objects_isolated(chk)
     d = dict(GRAPH, DirtRule='"ignored"', MaxOps=4 if thorough else 3)
     body = ("SPECIFICATION Spec\nINVARIANT C10_HistoryIndependent\nPROPERTY C10_ZeroResultIndependent\nPROPERTY C10_OnlyZeroWritesZero\n"
             "INVARIANT C10_NothingElseMutates\nPROPERTY C10_FailedZeroKeepsZero\n")
@@ -514,7 +555,7 @@ def run(chk: core.Check, replay=None) -> None:
     chk.sample({"history": behs[0]})
     threads_part(chk, thorough, rng)
     chk.require_strata(["op_Fire", "op_FireRaises", "op_Zero", "op_ZeroRaises", "op_Danger", "op_Build", "op_EditTable", "op_FireBadTable",
-                        "earlier_results_rechecked", "table_edited_in_place", "edit_kind_table", "edit_kind_powder", "edit_kind_dims", "edit_between_computations_on_one_calculator", "quantities_redisplayed_and_preferences_switched", "zero_written", "schedule", "schedule_equal_configurations", "schedule_different_configurations",
+                        "default_objects_edited", "earlier_results_rechecked", "table_edited_in_place", "edit_kind_table", "edit_kind_powder", "edit_kind_dims", "edit_between_computations_on_one_calculator", "quantities_redisplayed_and_preferences_switched", "zero_written", "schedule", "schedule_equal_configurations", "schedule_different_configurations",
                         "free_running"])
     chk.exhaustive = False
     chk.rule.append("TLC-simulated session histories of 6 operations over 3 shots (shared weapon / shared ammunition, with and without "
